@@ -1,16 +1,38 @@
 """C04 - every builder returns a valid, stationary and (where promised) reversible model."""
-from pyvc.runner import Run, resolve_failures
+from pyvc.runner import Run, Unit, resolve_failures
+from contracts import builders as CB
+
+BF = 'enspara/msm/builders.py'
+MUT = [('column-normalise', BF, "        weights = np.asarray(C.sum(axis=1)).flatten()\n        inv_weights = np.zeros(n_states)", "        weights = np.asarray(C.sum(axis=0)).flatten()\n        inv_weights = np.zeros(n_states)"),
+       ('no-zero-guard', BF, "        inv_weights[weights > 0] = 1.0 / weights[weights > 0]\n        T = C *", "        inv_weights = 1.0 / weights\n        T = C *"),
+       ('half-dropped', BF, "    return C_sym.astype(float)/2, probs, equilibrium", "    return C_sym.astype(float), probs, equilibrium"),
+       ('sym-minus', BF, "    C_sym = C + C.T", "    C_sym = C - C.T"),
+       ('prior-dropped-in-normalize', BF, "def normalize(C, prior_counts=None, calculate_eq_probs=True):", "def normalize(C, prior_counts=None, calculate_eq_probs=True):\n    prior_counts = None"),
+       ('prior-after-symmetrisation', BF, "    C = _apply_prior_counts(C, prior_counts)\n\n    C_sym = C + C.T", "    C_sym = C + C.T\n    C_sym = _apply_prior_counts(C_sym, prior_counts)")]
 
 
 def run(tier, seed, update_lock=False):
     R = Run('C04', 'other', tier, seed)
+    units = []
+    for prior in ('none', 'scalar'):
+        for eq in (True, False):
+            reg = CB.registry(prior, eq)
+            keys = [CB.F + 'transpose'] + ([CB.F + '_row_normalize', CB.F + '_apply_prior_counts', CB.F + 'normalize'] if eq else [])
+            units.append(Unit('builders-dense[prior=%s,populations=%s]' % (prior, eq), reg, keys=keys,
+                              mutants=(MUT[:4] if (prior, eq) == ('none', True) else MUT[4:] if (prior, eq) == ('scalar', True) else [])))
+    for u in units:
+        R.prove(u)
+    for u in units[:3]:
+        R.canary_check(u)
+    R.lemma('TransposeBuilder.lean', 'symmetric S: rows of S/rowsum sum to 1; detailed balance and stationarity with pi = rowsum/total')
     R.bounded('C04.py', 'run-time contracts (the statement) on the real builders over the complete container product',
               '{normalize, transpose, mle} x {ndarray, csr, csc, coo, lil, dok, dia, bsr} x {prior none / scalar / asymmetric array} x {populations on/off}; count matrices with 2..4 states')
     R.report_known('C04.py')
     resolve_failures(R, 'C04.py', lambda f: None)
-    R.clauses = [{'clause': 'rows are distributions; normalize = counts / row totals; transpose = symmetrise then normalise; populations stationary; detailed balance', 'status': 'bounded (run-time contracts, enumerated + seeded matrices <= 4 states)'},
+    R.clauses = [{'clause': 'dense ndarray branch: row-normalised matrix = counts over row totals (zero-row guard); transpose = (C+prior)+(C+prior)^T, returned counts = half of it, probabilities = its row normalisation, populations = symmetric row totals over the total; prior counts added before estimation; no populations unless asked; caller\'s matrix unchanged', 'status': 'proved (SMT on the real _row_normalize / _apply_prior_counts / normalize / transpose, non-linear real arithmetic); that such matrices are stochastic, reversible and stationary is lemmas/TransposeBuilder.lean'},
+                 {'clause': 'rows are distributions; normalize = counts / row totals; transpose = symmetrise then normalise; populations stationary; detailed balance', 'status': 'bounded (run-time contracts, enumerated + seeded matrices <= 4 states)'},
                  {'clause': 'same numbers for dense and all 8 sparse containers; output container = input container; prior counts added before estimation; caller\'s matrix unchanged', 'status': 'bounded (complete container x option product)'},
                  {'clause': 'leading eigenvalue 1 with a positive eigenvector (Perron-Frobenius)', 'status': 'assumed'}]
     R.assumptions += ['SciPy sparse container algebra is not modelled symbolically; tolerance 1e-8..1e-12 on floating-point comparisons']
-    return R.finish('No deductive obligations yet for C04 in this run: the builders mix dense and SciPy-sparse container algebra; the statement is checked as a run-time contract over the complete container product.',
+    return R.finish('Deductive: the dense branches of the normalising and symmetrising builders (formulae). Lemma: stochastic rows / detailed balance / stationarity of the symmetrised estimate. Bounded: the whole statement over the complete container product, incl. the ML builder.',
                     update_lock=update_lock)
